@@ -115,6 +115,19 @@ def attack(tag, roots):
 '''
 
 
+BASE = """BASE_STATE = {"items": [1, 2, 3], "name": "state"}
+BASE_OTHER = ["other", 7]
+def make_getter(tag):
+    def inner():
+        return [BASE_STATE, tag, len(BASE_STATE["items"]), BASE_OTHER]
+    return inner
+def make_reader(i):
+    def inner():
+        return (BASE_OTHER[i % 2], BASE_STATE["name"], i)
+    return inner
+"""
+
+
 def importer_src(names, fns, tag, lib_file="lib.star", extra=""):
     loads = ", ".join('"%s"' % n for n in names + [f.name for f in fns])
     src = 'load("%s", %s)\n' % (lib_file, loads) if loads else ""
@@ -141,8 +154,17 @@ def make_case(i, s):
     sc = g.top_scope
     names = [v.name for v in sc.vars if not v.name.startswith(("i", "m", "pf"))]
     fns = [f for f in sc.fns if f.name != "undefined_fn_arity"]
-    lib_src = gen_full.render(lines)
-    units = [{"file": "lib.star", "src": lib_src, "freeze": True, "snapshot": names}]
+    # closures produced by factories of an already frozen module, stored in this module's exports:
+    # what they return must be the same before this module is frozen, after, and from any importer
+    npad = rng.randint(0, 12)
+    base_src = "".join("PAD%d = %d\n" % (k, k) for k in range(npad)) + BASE
+    pre = 'load("base.star", "make_getter", "make_reader", "BASE_STATE")\n'
+    pre += 'getter1 = make_getter("a")\ngetter2 = make_getter([1, 2])\nreader1 = make_reader(%d)\nGETTERS = struct(g=make_getter("s"), l=[make_reader(1)])\n' % rng.randint(0, 5)
+    pre += "def local_getter():\n    return [getter1(), reader1(), len(BASE_STATE[\"items\"])]\n"
+    calls = ["getter1", "getter2", "reader1", "local_getter"]
+    lib_src = pre + gen_full.render(lines)
+    units = [{"file": "base.star", "src": base_src, "freeze": True},
+             {"file": "lib.star", "src": lib_src, "freeze": True, "snapshot": names, "snapshot_calls": calls}]
     nimp = rng.randint(1, 3)
     order = list(range(nimp))
     for k in order:
@@ -153,6 +175,9 @@ def make_case(i, s):
     # an importer of the importer: re-exported values and values reached through a function
     units.append({"file": "imp_re.star",
                   "src": 'load("imp0.star", "REEXPORT", "getter")\n' + WALKER + 'attack("re", [REEXPORT, getter()])\n'})
+    units.append({"file": "imp_calls.star", "src": 'load("lib.star", "getter1", "getter2", "reader1", "local_getter", "GETTERS")\n' +
+                  "".join('emit("impcall", "%s", attempt(%s))\n' % (c, c) for c in calls) +
+                  'emit("impcall2", attempt(GETTERS.g), attempt(GETTERS.l[0]))\n'})
     # finally re-observe the library's exports from a fresh importer: must still be what was recorded
     units.append({"file": "final.star", "src": 'load("lib.star", %s)\n' % ", ".join('"%s"' % n for n in names) + "".join('snapshot("%s", %s)\n' % (n, n) for n in names)})
     return {"id": "c%d" % i, "cfg": {"dialect": "internal"}, "units": units}, names
@@ -219,6 +244,26 @@ def run(tier):
                             flavor, c["id"], lab, name, json.dumps(a)[:200], json.dumps(b)[:200]), wit)
                         break
                 distinct.add(json.dumps(p[0])[:300])
+            # calls of exported closures: before freeze == after freeze == from an importer
+            precall, postcall = {}, {}
+            for e in evs:
+                if e[0] == "precall":
+                    precall[e[1]] = e[2:]
+                elif e[0] == "postcall":
+                    postcall[e[1]] = e[2:]
+            for name, p in precall.items():
+                st["calls"] += 1
+                q = postcall.get(name)
+                if q != p:
+                    rep.violation("c04:call-result-changed-by-freeze", "[%s] %s: calling exported %s() gave %s before the module was frozen and %s after" % (
+                        flavor, c["id"], name, json.dumps(p)[:200], json.dumps(q)[:200]), wit)
+            for e in evs:
+                if e[0] == "e" and e[1] == "simpcall":
+                    name = e[2][1:]
+                    p = precall.get(name)
+                    if p and p[0] == "ok" and e[3] != ["t", "sok", p[1]]:
+                        rep.violation("c04:call-result-differs-in-importer", "[%s] %s: %s() called from an importing module gives %s, before freezing it gave %s" % (
+                            flavor, c["id"], name, json.dumps(e[3])[:200], json.dumps(p[1])[:200]), wit)
             # (b)/(c) attempts
             for e in evs:
                 if e[0] == "r" and e[3] == "err" and e[1] != "lib.star":
